@@ -40,7 +40,7 @@ GROUPS = {
     'Arith': dict(kind='translate', flags=RELEASE, names=ARITH, mem=False),
     'Tables': dict(kind='tables', flags=RELEASE),
     'Secure': dict(kind='translate', flags=SECURE, names=SECURE_FNS, namespace='GenS', log_errors=True),
-    'Os': dict(kind='translate', flags=RELEASE, names=['_mi_os_free_ex', '_mi_os_good_alloc_size', '_mi_align_up', 'mi_memkind_is_os', '_mi_os_free'], mem=False, namespace='GenO'),
+    'Os': dict(kind='translate', flags=RELEASE, names=['_mi_os_free_ex', '_mi_os_good_alloc_size', '_mi_align_up', 'mi_memkind_is_os', '_mi_os_free', 'mi_align_up_ptr', 'mi_os_prim_alloc_aligned', '_mi_os_alloc_aligned_at_offset'], mem=False, namespace='GenO'),
     'Arena': dict(kind='translate', flags=RELEASE, names=['mi_arena_id_is_suitable', '_mi_arena_memid_is_suitable', 'mi_arena_id_index', 'mi_arena_id_create', '_mi_arena_id_none', 'mi_block_count_of_size', 'mi_arena_block_size', 'mi_arena_size'], mem=False, namespace='GenA', strict=False),
     'Purge': dict(kind='custom', flags=RELEASE, fn='gen_purge'),
     # functions with `while` loops (-> whileN): mi_arena_purge_range (two nested loops; its calls of mi_arena_purge as effect log) and
